@@ -520,6 +520,11 @@ class Replayer:
             lazy = any(isinstance(self.rot.data[k].data, dask.array.Array) for k in allowed)
             if w.daskin:
                 self.D(lazy == r["lazy"], "C12", "C12_ComputeMakesEager", f"after {a['kind']}: rotator lazy={lazy}, specification {r['lazy']}")
+            # stored rotated results are those of a fresh rotator on a fresh model, in sorted order
+            if r["order"] == "sorted" and r["prep"] == r["base"] and a["kind"] in ("rotfit", "rotcompute", "deserialize", "compute", "fit"):
+                ref = w.refrot(r["base"])
+                why = same(fam.scores(self.rot), fam.scores(ref), what="rotated scores")
+                self.M(why, "C11", "C11_SortedExactlyOnce", f"after {a['kind']}: stored rotated scores are not those of a fresh rotator (sorted order) on {r['base']}")
         # inputs untouched
         for d, h in w.digest0.items():
             self.D(digest(w.ds[d].objs()) == h, "C14", "C14_InputsUntouched", f"after {a['kind']}: user input {d} was modified")
